@@ -90,6 +90,8 @@ func C18(c *Ctx) {
 	c.c18CommitNonce()
 	r.Rule("R18.8", "the commit nonce only moves forward: in processCommitTransactions the nonce handed on for an account (entry of the map given to updateCommittedNonce, or a direct setCommitNonce) is computed from a pool entry reported as committed only behind the comparison commit nonce (getCommitNonce of that account) < new nonce; reports can arrive split and out of order, and without the comparison a later report of lower nonces moves the commit nonce back - the already committed nonces are admitted and batched again.")
 	c.c18CommitForward()
+	r.Rule("R18.9", "the pending nonce is never below the commit nonce: a commit report may name nonces this replica's pool never held as ready (the gap below them was filled on another replica, or the whole transaction was never received); processCommitTransactions therefore raises an account's pending nonce to its new commit nonce (a setPendingNonce fed from the commit nonce, in the function or a helper of the commit path). Otherwise the admission filter (nonce >= pending nonce) admits transactions that are already committed, and the account's following transactions are never batched on this replica.")
+	c.c18PendingFollowsCommit()
 	r.NotDecided = append(r.NotDecided, "history-dependent consistency of the indices over arrival/commit interleavings; restart reload of nonces; the unbounded batch when the ready counter is 0 while ready transactions exist (reported as information)")
 
 	pt := c.fn("R18.1", mpPrefix+"ProcessTransactions")
@@ -631,4 +633,37 @@ func (c *Ctx) c18CommitForward() {
 		n += c.behindEdges("R18.8", shortFn(f), f, fwd, isAdvance, "commit nonce < new nonce", "advance of the commit nonce")
 	}
 	r.Floor("R18.8", "commit-nonce advances computed from committed pool entries", n, 1)
+}
+
+// c18PendingFollowsCommit: R18.9.
+func (c *Ctx) c18PendingFollowsCommit() {
+	r := c.R
+	fn := c.fn("R18.9", mpPrefix+"processCommitTransactions")
+	if fn == nil {
+		return
+	}
+	found := ""
+	for _, rf := range c.regionOf(fn, 2) {
+		for _, call := range core.Calls(rf.fn) {
+			if !strings.HasSuffix(core.CalleeName(call), "nonceCache).setPendingNonce") {
+				continue
+			}
+			args := call.Common().Args
+			if len(args) == 0 {
+				continue
+			}
+			if core.Mentions(args[len(args)-1], func(w ssa.Value) bool {
+				cc, ok := w.(*ssa.Call)
+				return ok && strings.HasSuffix(core.CalleeName(cc), "nonceCache).getCommitNonce")
+			}) {
+				found = c.P.Pos(call.Pos())
+			}
+		}
+	}
+	key := "processCommitTransactions: pending nonce raised to the commit nonce"
+	if found != "" {
+		r.OK("R18.9", key, found, "setPendingNonce(account, commit nonce) on the commit path")
+	} else {
+		r.Bad("R18.9", key, c.P.Pos(fn.Pos()), "the commit path advances commitNonces but never pendingNonces: after a commit that names nonces this pool did not hold as ready the pending nonce stays below the commit nonce - an already committed transaction passes the admission filter again, and the account's later transactions are parked for ever on this replica")
+	}
 }
